@@ -30,6 +30,10 @@ func runC20(c *an.Ctx) {
 	passThrough(c, "R20i", "cacheproxy: component configuration lookups are plain pass-throughs to the wrapped service", []string{"ResolveComponentQuery", "GetComponentConfiguration", "GetComponentConfigurationWithLastIndex", "GetAndProcessComponentConfiguration"}, "an answer kept by the proxy outlives the entry it names: after the entry is removed or a more specific one is added, the query still resolves to the remembered path")
 	r20g(c)
 	r20h(c)
+	// round 8
+	r20j(c)
+	r20k(c)
+	r20l(c)
 }
 
 const cfgPkg = "configuration/componentcfg"
